@@ -338,6 +338,18 @@ func c08Body(env *simrt.Env) {
 						if rq.ns > 120 {
 							rq.ns, rq.np = 25, 4+simrt.Draw(18)
 						}
+						// one time in three only the pre-trigger length moves (same record length, pre-trigger
+						// part longer or shorter by 1..30): an edge that is still pending at the cut then keeps
+						// its frame while the room before it changes
+						if simrt.Draw(3) == 0 {
+							np := w.npre + 1 + simrt.Draw(30)
+							if simrt.Draw(3) == 0 {
+								np = w.npre - 1 - simrt.Draw(30)
+							}
+							if np >= 1 && np < w.nsamp-1 {
+								rq.ns, rq.np = w.nsamp, np
+							}
+						}
 					case 1:
 						l := oddLengths[simrt.Draw(len(oddLengths))]
 						rq = c08Req{lengths: true, ns: l[0], np: l[1]}
